@@ -199,6 +199,13 @@ def run_c04(ctx):
                  ids=("gen", "exp") if not q else ("gen",), comp=2, kids=3)
     r = ctx.model_check("PuanBuild", u, invariants=["C04"], dump=True, name="Build_C04")
     cases = spec_cases(ctx, r, vias=["ctor", "from_list", "json", "cicJE", "ctor_sub", "ctor_gen"])
+    # three levels: a negating connective over a threshold proposition that mixes leaves and sub-propositions
+    a_, b_, p_, q_, x_ = (LEAF(i) for i in "abpqx")
+    for mid in (_R("All", a_, _R("Any", p_, q_)), _R("AtLeast", a_, _R("Any", p_, q_), v=2, s=1), _R("Any", a_, b_, _R("All", p_, q_)),
+                _R("All", a_, b_, _R("Any", p_, q_)), _R("AtLeast", a_, b_, _R("All", p_, q_), _R("Any", p_, x_), v=2, s=1), _R("AtMost", a_, _R("Any", p_, q_), v=1)):
+        for outer in (_R("Imply", mid, x_), _R("Not", mid), _R("XNor", mid, x_), _R("Xor", mid, x_), _R("Imply", x_, _R("Not", mid)), _R("All", _R("Not", mid), x_)):
+            cases.append({"recipe": outer, "src": "handmade", "vias": ["ctor", "json", "ctor_sub"]})
+    ctx.region("negated_mixed_threshold_depth3")
     rc = random_cases(ctx, 300 if q else 3000, ["kids>=4", "depth>=3", "explicit_id", "generated_id"] + ["cls_" + c for c in ALLC],
                       ints=False, documented=True, max_box=64, max_kids=5)
     for c in rc: c["vias"] = ["ctor", "json", "from_list", "cicJE", "ctor_sub", "ctor_map"]
